@@ -371,7 +371,10 @@ def run_case(case, delta):
                 left[0] -= 1
                 f()
         return g
-    nss, funcs = load_program(prog, {'tick': rec.tick, 'prof': rec, 'snap': (limited(rec.snapshot) if inner else (lambda: None))})
+    def renable_rec():
+        if rec.count > 0:
+            rec.ops.append('enable 0')          # the model's raw enable: nothing changes while tracing is on
+    nss, funcs = load_program(prog, {'tick': rec.tick, 'prof': rec, 'snap': (limited(rec.snapshot) if inner else (lambda: None)), 'renable': renable_rec})
     presession(case, funcs, blocks)
     rec.declare(funcs)
     rec.ops.append('delta %d' % (delta if with_time else 0))
@@ -392,7 +395,10 @@ def run_case(case, delta):
 
     def snap():
         snaps.append('stats ' + canon_stats(p.get_stats().timings, labelsB, with_time))
-    nssB, funcsB = load_program(prog, {'tick': realtick, 'prof': p, 'snap': (limited(snap) if inner else (lambda: None))})
+    def renable_real():
+        if p.enable_count > 0:
+            p.enable()
+    nssB, funcsB = load_program(prog, {'tick': realtick, 'prof': p, 'snap': (limited(snap) if inner else (lambda: None)), 'renable': renable_real})
     presession(case, funcsB, blocksB)
     for i, (fname, name, fn) in enumerate(funcsB):
         c = fn.__code__
